@@ -4,19 +4,20 @@
    functions the VM invoked (from the callNative hook, mapped by code pointer to the supplied
    functions); unknown = number of invoked host functions that are NOT supplied ones. *)
 EXTENDS Integers, Sequences, FiniteSets, TLC, Json
-Pkgs == {"p1", "p2", "zz/q"}
-Fns == {"A", "B", "Z"}
-Decl == [p \in Pkgs |-> IF p = "p1" THEN {"A", "B"} ELSE IF p = "p2" THEN {"A"} ELSE {}]
+(* decl = what the embedder's objects declare AT THE TIME OF THIS BUILD: [[pkg, [fn, ...]], ...] (pkg "" = globals);
+   supplied = identities of the host functions behind those declarations; callids = identities of the host
+   functions the VM invoked. *)
 ToSet(s) == {s[k] : k \in DOMAIN s}
-Supplied(r) == {x \in Pkgs \X Fns : x[1] \in ToSet(r.importer) /\ x[2] \in Decl[x[1]]} \cup {<<"", f>> : f \in ToSet(r.globals)}
-Resolves(r, s) == <<s.pkg, s.fn>> \in Supplied(r) /\ (s.kind = "go" => r.allowgo)
+Supplied(r) == UNION {{<<r.decl[k][1], f>> : f \in ToSet(r.decl[k][2])} : k \in DOMAIN r.decl}
+Resolves(r, s) == (s.pkg = "#" \/ <<s.pkg, s.fn>> \in Supplied(r)) /\ (s.kind = "go" => r.allowgo)
 BuildOk(r) == \A k \in DOMAIN r.prog : Resolves(r, r.prog[k])
 RecOk(r) == /\ r.build \in {"ok", "builderror"}
             /\ (r.build = "ok") = BuildOk(r)                     \* anything unresolvable fails at build time
             /\ r.unknown = 0                                       \* no host function that was not supplied
             /\ ToSet(r.calls) \subseteq Supplied(r)
+            /\ ToSet(r.callids) \subseteq ToSet(r.supplied)           \* by identity: a function no longer supplied is not invoked
             /\ r.wrapcalls = r.hookcalls                           \* every invocation seen by the hook reached a supplied wrapper
-Sig(r) == [fam |-> "confine", form |-> r.form, build |-> r.build, expected |-> BuildOk(r), unknown |-> r.unknown > 0]
+Sig(r) == [fam |-> "confine", form |-> r.form, step |-> r.step, build |-> r.build, expected |-> BuildOk(r), unknown |-> r.unknown > 0, stale |-> ~(ToSet(r.callids) \subseteq ToSet(r.supplied))]
 
 VARIABLES l, nbad
 Obs == ndJsonDeserialize("obs.ndjson")
